@@ -2106,6 +2106,12 @@ impl<S, T> Drop for Client<S, T> {
             guard.remove(&(self.process_id, self.secret_key));
         }
 
+        // However the client task ends (error path or panic), the client must
+        // disappear from the admin statistics. Reporting a disconnect twice is harmless.
+        if !self.cancel_mode {
+            self.stats.disconnect();
+        }
+
         // Dirty shutdown
         // TODO: refactor, this is not the best way to handle state management.
         if self.connected_to_server && self.last_server_stats.is_some() {
